@@ -508,6 +508,8 @@ def main(pid, tier=None, replay=None):
             path = write_replay(ctx, 'failing-input', {
                 'failure': new_failures[0], 'more_failures': new_failures[1:6],
                 'n_failures': len(new_failures),
+                'failure_keys': dict(collections.Counter(f['key'] for f in new_failures)),
+                'first_failure_per_key': list({f['key']: f for f in reversed(new_failures)}.values())[:20],
                 'proof_broken': ctx.proof_broken, 'disagreements': ctx.disagreements[:5],
                 'tie_broken': ctx.tie_broken[:5]})
             write_evidence(ctx, len(new_failures))
